@@ -99,8 +99,8 @@ extern "C" void h_c04_restart(unsigned long) {
 #else
     const bool leftover = g_disk[0].present;
 #endif
-    if (!verif_known("C04-files-of-earlier-instance-never-reclaimed", leftover))
-        verif_assert(!leftover, "C04: a file written by an earlier daemon instance is removed once the chunk has expired");
+    (void)verif_known("C04-files-of-earlier-instance-never-reclaimed", stored_on_disk);     // region: an earlier instance left a file
+    verif_assert(!leftover, "C04: a file written by an earlier daemon instance is removed once the chunk has expired");
     verif_reach("restarted");
 #ifdef VERIF_NATIVE
     std::filesystem::remove_all(cfg.storage_directory);
